@@ -103,7 +103,7 @@ def w_rows(cfg, tier='quick'):
                        dict(fact='warmed-' + k_) if not ok else None,
                        'object built undeformed, all derived data read, then deformed (ground fact)')
     lt.symbolize(code)
-    groups = explore_stabilizer(code, cfg0, col)
+    groups = explore_stabilizer(code, cfg0, col, pid='C02')
     qdims = sorted({len(c) for c in qc})
     for avars, base, paths, ncoords in groups:
         dim = len(avars)
@@ -510,7 +510,14 @@ def replay(path):
             code = common.make_code(cfg.split(' ', 1)[1])
             n = code.n
             H = code.stabilizer_matrix.toarray()
-            if 'H-row-equals' in oid:
+            if w.get('impure'):
+                cfg1 = cfg.split(' ', 1)[1]
+                a1 = dict(code.get_stabilizer(tuple(w['a'])))
+                a2 = dict(code.get_stabilizer(tuple(w['a'])))
+                a3 = dict(common.make_code(cfg1).get_stabilizer(tuple(w['a'])))
+                print('get_stabilizer', tuple(w['a']), '->', a1, '| again ->', a2, '| other object ->', a3)
+                bad = a1 != a2 or a1 != a3
+            elif 'H-row-equals' in oid:
                 a, q = tuple(w['a']), tuple(w['q'])
                 if a in code.stabilizer_index and q in code.qubit_index:
                     op = code.get_stabilizer(a)
